@@ -26,9 +26,14 @@ def check_reader_agreement(chk) -> None:
     b = repo.func(P2, "parse_pdb_atoms")
     chk.note_function(a)
     chk.note_function(b)
-    sa_, sb = line_slices(a.node), line_slices(b.node)
+    sa_, how_a = c08.reader_slices(chk, "v1")
+    sb, how_b = c08.reader_slices(chk, "v2")
+    if "none" in (how_a, how_b):
+        chk.error("pdb-slices-agree", (a if how_a == "none" else b).where, "the columns a PDB reader takes its fields from could not be established (not evaluable on probe lines, no `line[a:b]` subscripts found)")
     for var, field in sp["parser_names"].items():
-        ga, gb = sa_.get(var), sb.get(field)
+        if "none" in (how_a, how_b):
+            break
+        ga, gb = sa_.get(field), sb.get(field)
         chk.expect(
             ga is not None and ga == gb,
             "pdb-slices-agree",
@@ -40,10 +45,15 @@ def check_reader_agreement(chk) -> None:
             found=list(gb) if gb else None,
         )
     for field, want in sp["atom"].items():
+        if how_b == "none":
+            break
         gb = sb.get(field)
         chk.expect(gb == tuple(want), "pdb-slices-v2", b.where, f"parser_v2: {field} = columns {want[0] + 1}-{want[1]}", f"parser_v2 reads {field} from {gb}, the format says line[{want[0]}:{want[1]}]", K(b, f"column:{field}"), expected=want, found=list(gb) if gb else None)
-    m2 = [n for n in ast.walk(b.node) if isinstance(n, ast.Assign) and norm(n.targets[0]) == "current_model" and isinstance(n.value, ast.Call)]
-    ok = any("line[10:14]" in norm(n.value) for n in m2)
+    if how_b == "probe":
+        ok = sb.get("model") == tuple(sp["model_serial"])
+    else:
+        m2 = [n for n in ast.walk(b.node) if isinstance(n, ast.Assign) and norm(n.targets[0]) == "current_model" and isinstance(n.value, ast.Call)]
+        ok = any("line[10:14]" in norm(n.value) for n in m2)
     chk.expect(ok, "pdb-slices-v2", b.where, "parser_v2: MODEL serial from columns 11-14", "parser_v2 does not read the MODEL serial from line[10:14]", K(b, "column:model"))
     # record filter of parser_v2: which classes of line yield an atom record - the loop body evaluated on one representative per class
     _record_filter(chk, b, sp)
@@ -161,7 +171,17 @@ def check_item_preference(chk) -> None:
     # grouping of the table-level model
     rs = repo.func(T2, "Structure.residues")
     chk.note_function(rs)
-    _group_columns(chk, rs)
+    from checks import c15e
+
+    decided = False
+    try:
+        decided = c15e.check_group_columns_eval(chk, rs)
+    except AnalysisError:
+        raise
+    except Exception as ex:
+        chk.ok("group-columns-eval", rs.where, f"evaluation of Structure.residues failed internally ({type(ex).__name__}): the path rule decides")
+    if not decided:
+        _group_columns(chk, rs)
     # atom name / coordinates
     at = repo.func(T2, "Atom.coordinates")
     chk.note_function(at)
